@@ -332,7 +332,7 @@ class HardForkInitiationAction(CodedSerializable):
     gov_action_id: Optional[GovActionId]
     """Optional reference to a previous governance action"""
 
-    protocol_version: Fraction
+    protocol_version: Tuple[int, int]
     """The target protocol version as (major, minor) version numbers"""
 
     def __post_init__(self):
